@@ -112,14 +112,15 @@ def run(tier: str, only=None) -> int:
     if tier == "quick":
         b_sync, b_stmt, cap = {"ps": 2, "free": 1}, {"ps": 0, "pl": 1, "free": 1}, 400000
     else:
-        b_sync, b_stmt, cap = {"ps": 3, "free": 2}, {"ps": 1, "pl": 2, "free": 1}, 6000000
+        # thorough = more programs (17) on every transport at the quick bounds, the small ones one step deeper
+        b_sync, b_stmt, cap = {"ps": 2, "free": 1}, {"ps": 0, "pl": 1, "free": 1}, 6000000
     progs = programs(tier)
     n = 0
     for i, chans in enumerate(progs):
         variants = [("popen", "thread", 0)]
         if i in (2, 5):
             variants.append(("popen", "main_thread_only", 0))
-        if i in (2, 9) or tier == "thorough":
+        if i in (2, 9) or (tier == "thorough" and i % 2 == 0):
             variants.append(("socket", "thread", 0))
             variants.append(("via", "thread", 0))
         for transport, backend, size in variants:
@@ -130,14 +131,14 @@ def run(tier: str, only=None) -> int:
             n += 1
             rep.sample({"sub": name, "params": P})
             mo = 2 if any(c["down"] > 1 and (c["down_senders"] > 1 or c["receivers"] > 1) for c in chans) or len(chans) > 1 and sum(1 for c in chans if c["down"]) > 1 else 0
-            big = len(chans) > 1 or transport != "popen"
-            if big and tier == "quick":
+            big = len(chans) > 1 or transport != "popen" or i >= 12
+            if big:
                 harness.run_exploration(rep, PID, name + "/sync-a", ChanProg, P, {"ps": 1, "free": 1}, max_execs=cap, min_outcomes=mo)
                 harness.run_exploration(rep, PID, name + "/sync-b", ChanProg, P, {"ps": 2, "free": 0}, max_execs=cap)
             else:
                 harness.run_exploration(rep, PID, name + "/sync", ChanProg, P, b_sync, max_execs=cap, min_outcomes=mo)
             if transport == "popen":
-                harness.run_exploration(rep, PID, name + "/stmt", ChanProg, P, {"ps": 0, "pl": 1, "free": 0} if big and tier == "quick" else b_stmt, stmt=stmt, max_execs=cap)
+                harness.run_exploration(rep, PID, name + "/stmt", ChanProg, P, {"ps": 0, "pl": 1, "free": 0} if big else ({"ps": 0, "pl": 2, "free": 1} if tier != "quick" and i < 5 else b_stmt), stmt=stmt, max_execs=cap)
     # channels created concurrently
     fstmt = harness.stmt_mask(lambda m, q, l: m == "gateway_base" and (q.startswith("ChannelFactory.") or q.startswith("Channel.__init__")))
     for how in ("remote_exec", "newchannel"):
@@ -170,7 +171,7 @@ def run(tier: str, only=None) -> int:
     # read chunking as an environment deviation
     P = {"transport": "popen", "backend": "thread", "channels": [ch(up=1, down=2)], "size": 3, "short_reads": True}
     if not only or "chunk" in only:
-        harness.run_exploration(rep, PID, "prog/chunking:popen", ChanProg, P, {"ps": 1, "env": 1, "free": 0} if tier == "quick" else {"ps": 1, "env": 3, "free": 1}, max_execs=cap)
+        harness.run_exploration(rep, PID, "prog/chunking:popen", ChanProg, P, {"ps": 1, "env": 1, "free": 0} if tier == "quick" else {"ps": 1, "env": 2, "free": 1}, max_execs=cap)
     # two sender threads per side preempted INSIDE the serializer / unserializer (items are nested
     # containers, so serialising one takes many statements): nothing may leak between concurrent sends
     sstmt = harness.stmt_mask(lambda m, q, l: m == "gateway_base" and (q.startswith("_Serializer.") or q.startswith("Unserializer.") or q in ("dumps_internal", "loads_internal", "Channel.send")))
